@@ -2,7 +2,7 @@
    Statements only; every proof is [exact <lemma from Proofs/TsigMsgP.v>].
    [hmac] is universally quantified: the theorems hold for every MAC function (the
    second-preimage resistance of HMAC is the stated cryptographic assumption of c11_tamper). *)
-From QV Require Import Base.ListX Model.TsigMsg Spec.Tsig8945S Spec.TsigRepr Proofs.TsigEncP Proofs.TsigMsgP.
+From QV Require Import Base.ListX Model.TsigMsg Spec.Tsig8945S Spec.TsigRepr Proofs.TsigEncP Proofs.TsigMsgP Proofs.TsigInjP.
 
 (* The octets the signer feeds to the authenticator are the digest components of RFC 8945
    4.3.1-4.3.3 / 5.3.1, in all three modes, for every message, key name, time, fudge, error,
@@ -29,7 +29,7 @@ Theorem c11_read : forall t, wf_stsig t ->
   r_time_signed (read_of t) = Some (u48 (t_time t)) /\ r_fudge (read_of t) = Some (t_fudge t) /\
   r_mac (read_of t) = Some (t_mac t) /\ r_original_id (read_of t) = Some (t_orig_id t) /\
   r_error (read_of t) = Some (t_error t) /\ r_other (read_of t) = Some (t_other t).
-Proof. intros t W. split; [exact (try_from_spec t W)|exact (read_fields t W)]. Qed.
+Proof. exact read_spec. Qed.
 
 (* The verifier feeds the same RFC digest to the authenticator. *)
 Theorem c11_verify_digest_eq : forall t d m sent_id, wf_stsig t -> wf_smsg m ->
@@ -54,11 +54,7 @@ Theorem c11_verify_iff : forall hmac t d m a key now sent_id,
    <-> mac_len_ok (alg_s a) (length (t_mac t)) /\
        t_mac t = firstn (length (t_mac t)) (hmac a key (spec_digest d m t)) /\
        time_ok t now).
-Proof.
-  intros hmac t d m a key now sent_id W Hm Ha Hn Hd.
-  rewrite (verify_ok_iff hmac t d m a key now sent_id W Hm Ha Hn Hd).
-  unfold spec_accepts, mac_matches, mac_fn_of. rewrite alg_m_s. tauto.
-Qed.
+Proof. exact verify_iff_plain. Qed.
 
 (* Error precedence: FormErr for a disallowed MAC size, else BadSig for a wrong MAC, else BadTime;
    never a panic. *)
@@ -84,6 +80,80 @@ Theorem c11_check_time : forall t now,
   check_time (u48 (t_time t)) (t_fudge t) (u48 now) = if time_okb t now then Ok tt else Err BadTime.
 Proof. exact check_time_spec. Qed.
 
+(* The digest encoding is injective on the covered fields, for equal lengths of the components
+   that carry no length prefix (message body, key name, algorithm name): whatever covered octet
+   changes, the MAC input changes. *)
+Theorem c11_digest_injective : forall d d' m m' t t',
+  same_mode d d' -> wf_smsg m -> wf_smsg m' -> wf_stsig t -> wf_stsig t' ->
+  (N.of_nat (length (dmode_mac d)) < 65536)%N -> (N.of_nat (length (dmode_mac d')) < 65536)%N ->
+  length (m_body m) = length (m_body m') ->
+  length (canon_wire (t_key t)) = length (canon_wire (t_key t')) ->
+  length (canon_wire (t_alg t)) = length (canon_wire (t_alg t')) ->
+  spec_digest d m t = spec_digest d' m' t' ->
+  dmode_mac d = dmode_mac d' /\ covered_msg m t = covered_msg m' t' /\
+  match d with
+  | DSubsequent _ => covered_timers t = covered_timers t'
+  | _ => covered_vars t = covered_vars t'
+  end.
+Proof. exact digest_injective. Qed.
+
+(* Tampering is detected: a message that differs from a verifying one in a covered field while
+   carrying the same MAC is answered FORMERR or BADSIG - given that the MAC function does not
+   collide on the two (distinct) digests at the truncation length in use.  That hypothesis is
+   the cryptographic assumption; everything else is proved. *)
+Theorem c11_tamper_rejected : forall mac_fn d d' m m' t t' a key now,
+  same_mode d d' -> wf_smsg m -> wf_smsg m' -> wf_stsig t -> wf_stsig t' ->
+  (N.of_nat (length (dmode_mac d)) < 65536)%N -> (N.of_nat (length (dmode_mac d')) < 65536)%N ->
+  length (m_body m) = length (m_body m') ->
+  length (canon_wire (t_key t)) = length (canon_wire (t_key t')) ->
+  length (canon_wire (t_alg t)) = length (canon_wire (t_alg t')) ->
+  mac_matches mac_fn d m t a key -> t_mac t' = t_mac t ->
+  (dmode_mac d <> dmode_mac d' \/ covered_msg m t <> covered_msg m' t' \/
+   match d with DSubsequent _ => covered_timers t <> covered_timers t' | _ => covered_vars t <> covered_vars t' end) ->
+  (forall x y, x <> y -> x = spec_digest d m t -> y = spec_digest d' m' t' ->
+     firstn (length (t_mac t)) (mac_fn a key x) <> firstn (length (t_mac t)) (mac_fn a key y)) ->
+  spec_verify mac_fn d' m' t' a key now = SFormErr \/ spec_verify mac_fn d' m' t' a key now = SBadSig.
+Proof. exact tamper_rejected. Qed.
+
+(* The length side conditions of c11_digest_injective are necessary: RFC 8945 4.3 concatenates
+   the message and the variables without a separator, so two different (message, TSIG) pairs
+   with different body lengths can have the same digest (the Other Data of one holds the
+   variables of the other). *)
+Example c11_injectivity_needs_lengths :
+  let k := [[97]]%N in let a := salg_name SSha1 in
+  let t' := mkStsig k a 1 2 [] 7 0 [] in
+  let t := mkStsig k a 3 4 [] 7 0 (comp_variables t') in
+  let m := mkSmsg 0 0 0 0 0 0 [] in
+  let m' := mkSmsg 0 0 0 0 0 0 (canon_wire k ++ u16 255 ++ u32 0 ++ canon_wire a ++ u48 3 ++ u16 4 ++ u16 0 ++ u16 32) in
+  spec_digest DRequest m t = spec_digest DRequest m' t' /\ m_body m <> m_body m' /\ t_time t <> t_time t'.
+Proof. cbv zeta. split; [vm_compute; reflexivity|]. split; [discriminate|vm_compute; discriminate]. Qed.
+
+(* Non-vacuity: a concrete record, message and MAC function meet the hypotheses of c11_verify_iff
+   and the verification succeeds; one second outside the fudge window it is BADTIME. *)
+Example c11_example :
+  let hmac := fun (a : alg) (k d : bytes) => firstn (output_size a) (k ++ d ++ repeat 0%N 32) in
+  let m := mkSmsg 4660 256 1 0 0 0 [1; 97; 0; 0; 1; 0; 1]%N in
+  let t0 := mkStsig [[107; 69; 121]]%N (salg_name SSha256) 1000 300 [] 4660 0 [] in
+  let t := with_mac t0 (firstn 16 (hmac HmacSha256 [9; 9]%N (spec_digest DRequest m t0))) in
+  wf_stsig t /\ wf_smsg m /\
+  verify hmac (read_of t) (sent_prefix 1 m) VRequest HmacSha256 [9; 9]%N (be48 1300) = Ok tt /\
+  verify hmac (read_of t) (sent_prefix 1 m) VRequest HmacSha256 [9; 9]%N (be48 1301) = Err BadTime /\
+  verify hmac (read_of t) (sent_prefix 1 m) VRequest HmacSha256 [9; 8]%N (be48 1300) = Err BadSig.
+Proof.
+  cbv zeta. split.
+  - unfold wf_stsig, valid_sname.
+    repeat split;
+      try (apply wf_bytesb_spec; vm_compute; reflexivity);
+      try (apply N.ltb_lt; vm_compute; reflexivity);
+      try (apply N.leb_le; vm_compute; reflexivity);
+      try (apply Nat.leb_le; vm_compute; reflexivity);
+      repeat constructor;
+      try (apply wf_bytesb_spec; vm_compute; reflexivity);
+      try (apply Nat.leb_le; vm_compute; reflexivity).
+  - split; [unfold wf_smsg; repeat split; try (apply N.ltb_lt; vm_compute; reflexivity); apply wf_bytesb_spec; reflexivity|].
+    repeat split; vm_compute; reflexivity.
+Qed.
+
 Print Assumptions c11_sign_digest_eq.
 Print Assumptions c11_sign.
 Print Assumptions c11_read.
@@ -93,3 +163,5 @@ Print Assumptions c11_verify_iff.
 Print Assumptions c11_verify_errors.
 Print Assumptions c11_check_time_no_overflow.
 Print Assumptions c11_check_time.
+Print Assumptions c11_digest_injective.
+Print Assumptions c11_tamper_rejected.
